@@ -3,6 +3,8 @@ package main
 
 import (
 	"fmt"
+	"os"
+	"runtime"
 	"go/constant"
 	"go/token"
 	"go/types"
@@ -182,6 +184,11 @@ func (e *Engine) call(fn *ssa.Function, args []Val, clo []Val) (ret Val) {
 	if r, ok := e.stub(fn, args); ok {
 		return r
 	}
+	return e.callBody(fn, args, clo)
+}
+
+// callBody interprets the SSA body (no stub lookup)
+func (e *Engine) callBody(fn *ssa.Function, args []Val, clo []Val) (ret Val) {
 	if fn.Blocks == nil {
 		if fn.Pkg != nil {
 			fn.Pkg.Build()
@@ -257,11 +264,32 @@ func (e *Engine) runDefers(fr *frame) {
 	}
 }
 
+type engineBug struct{ msg string }
+
+var profiling = os.Getenv("SYMGO_PROF") != ""
+
 func (e *Engine) run(fr *frame) Val {
+	var cur ssa.Instruction
+	defer func() {
+		if r := recover(); r != nil {
+			if re, ok := r.(runtime.Error); ok {
+				pos := ""
+				if cur != nil {
+					pos = fmt.Sprintf(" at instruction %q (%s) in %s", cur.String(), e.prog.Fset.Position(cur.Pos()), fr.fn)
+				}
+				panic(engineBug{re.Error() + pos})
+			}
+			panic(r)
+		}
+	}()
 	for {
 	block:
 		for _, in := range fr.block.Instrs {
+			cur = in
 			e.instrs++
+			if profiling {
+				e.prof[fr.fn]++
+			}
 			if e.instrs > maxInstrs {
 				panic(boundExceeded{"instruction budget exceeded"})
 			}
